@@ -23,6 +23,7 @@ type Engine struct {
 	strictAppendFrame bool
 	unroll            int
 	knownObl          map[string]bool
+	failDeadline      time.Time
 	mu                sync.Mutex
 	axiomErrs         map[string]string
 	workDir           string
